@@ -66,6 +66,7 @@ def body_api(case, rec):
     asm = conv.mk_assembly("a", case["scaffolds"])
     half = max(1, len(case["scaffolds"]) // 2)
     parts = [case["scaffolds"][:half], case["scaffolds"][half:]]
+    gapc = case.get("gap_character", "N").encode()  # the second stream may use another gap character (soft-masked 'n', '-')
     with fa.TempFasta(data) as path:
         fai = FastaIndex(path, case["buffer"])
         fai.index = fa.ref_index(data)
@@ -78,7 +79,7 @@ def body_api(case, rec):
         fai2.index = fa.ref_index(data)
         try:
             first_out, second_out = io.BytesIO(), io.BytesIO()
-            stream = FastaStream(first_out, fai2, line_length=case["line_length"])
+            stream = FastaStream(first_out, fai2, line_length=case["line_length"], gap_character=gapc)
             must(stream.write_assembly, conv.mk_assembly("a", parts[0]), what="write_assembly")
             stream.out = second_out
             must(stream.write_assembly, conv.mk_assembly("b", parts[1]), what="write_assembly (second output)")
@@ -89,7 +90,7 @@ def body_api(case, rec):
         k = next((i for i, (x, y) in enumerate(zip(got, want)) if x != y), min(len(got), len(want)))
         raise Violation(f"streamed FASTA differs from the reference at byte {k}: got {got[max(0, k - 20) : k + 20]!r} want {want[max(0, k - 20) : k + 20]!r} (lengths {len(got)}/{len(want)})")
     for n_, (o, p_) in enumerate(zip((first_out, second_out), parts)):
-        if o.getvalue() != ref.apply_agp_to_fasta(seqs, p_, case["line_length"]):
+        if o.getvalue() != ref.apply_agp_to_fasta(seqs, p_, case["line_length"], gap=gapc):
             raise Violation(f"one FastaStream used for two outputs: output {n_ + 1} does not hold exactly its own assembly")
 
 
@@ -170,13 +171,23 @@ def api_cases(draw):
     if frag_lens:
         buf_pool += [max(1, frag_lens[0] - 1), frag_lens[0], frag_lens[0] + 1]
     buf = draw(st.sampled_from(buf_pool))
-    return {"fasta": f, "scaffolds": scaffolds, "buffer": buf, "line_length": draw(st.sampled_from(LINE_LENGTHS))}
+    if draw(st.integers(0, 5)) == 0:
+        # an output scaffold named like ANOTHER input record of the same length, holding one whole forward record
+        src = f["records"][0]
+        if len(src[2]) >= 2:
+            twin = [f"twin{len(f['records']) + 1}", "", src[2][1:] + src[2][0], 60, "\n"]
+            src[3], src[4] = 60, "\n"
+            f["records"].append(twin)
+            scaffolds.append([twin[0], [["F", src[0], 1, len(src[2]), 1]]])
+            scaffolds.append([src[0], [["F", twin[0], 1, len(src[2]), 1]]])
+    return {"fasta": f, "scaffolds": scaffolds, "buffer": buf, "line_length": draw(st.sampled_from(LINE_LENGTHS)),
+            "gap_character": draw(st.sampled_from(["N", "N", "n", "-"]))}
 
 
 def fasta_input_plain(f):
     """derived assembly (plain, FASTA-shaped) of a plain FASTA, via the reference run-length encoding"""
     out = []
-    for name, _d, seq, _w, _e in f["records"]:
+    for name, _d, seq, _w, _e, *_more in f["records"]:
         rows = [["F", name, a, b, 1] if is_seq else ["G", b - a + 1, "scaffold"] for is_seq, a, b in ref.acgt_runs(seq.encode("latin-1"))]
         out.append([name, rows])
     return out
